@@ -89,6 +89,17 @@ pub fn gen_event_script(
                 }
                 script.push(Op::Connect);
             }
+            97 => {
+                // a broadcast (with and without the confirmation it may ask for): it changes nothing about the events
+                script.push(Op::Request {
+                    func: *rng.pick(&[refapp::FUNC_RECORD_CURRENT_TIME, refapp::FUNC_RECORD_CURRENT_TIME, refapp::FUNC_DISABLE_UNSOL]),
+                    seq: crate::verif::sout::SeqSel::Next,
+                    headers: vec![],
+                    flags: None,
+                    from: Who::Master,
+                    to: crate::verif::sout::Dest::Bcast(*rng.pick(&[0xFFFEu16, 0xFFFE, 0xFFFF, 0xFFFD])),
+                });
+            }
             _ => script.push(simple_request(refapp::FUNC_DELAY_MEASURE, vec![])),
         }
     }
@@ -669,6 +680,8 @@ impl LedgerOracle {
                     };
                     let same_bytes = last.as_ref() == Some(&rx.bytes);
                     *last = Some(rx.bytes.clone());
+                    // (the byte-identical answer to a retransmitted READ during a confirm wait is an echo, not a new selection)
+                    let echo_of_previous = same_bytes && matches!(step.op, Op::Repeat);
                     // a genuine re-send repeats a response that is still awaiting confirmation; identical octets after the
                     // carrier was confirmed are a new response that happens to encode the same
                     let carrier_outstanding = if is_unsol_frag {
@@ -818,6 +831,7 @@ impl LedgerOracle {
                     // (v') a complete single-fragment answer to an unlimited class READ carries every live event of that class
                     if !unsol
                         && is_read_from_master
+                        && !echo_of_previous
                         && Some(frag.ctrl.seq) == req_seq
                         && frag.ctrl.fir
                         && frag.ctrl.fin
@@ -873,6 +887,7 @@ impl LedgerOracle {
                     // header, the oldest events that match (up to the count) and have not been taken by an earlier header
                     if !unsol
                         && is_read_from_master
+                        && !echo_of_previous
                         && Some(frag.ctrl.seq) == req_seq
                         && frag.ctrl.fir
                         && frag.ctrl.fin
